@@ -37,7 +37,7 @@ var c12Names = []string{"t.html", "t.html.twig", "t.js", "t.js.twig", "t.css", "
 	// path elements that spell an extension are no extension: an extension follows the last dot of the name
 	"mail/welcome/txt", "widgets/js", "assets/css/main", "js", "txt", "to/url", "x/html_attr/y", "pages/txt/home.html", "a/js.twig", ".js", "dir/.css", "t.js/", "t.txt/x",
 	"twig", ".twig", "twig.twig", "t..twig", "t.", ".", "js.twig",
-	"inline:plain", "inline:dot", "inline:dotmid", "inline:ends-txt", "inline:ends-js", "inline:ends-css-twig", "inline:brace-ends-txt", "inline:brace-ends-js", "inline:braces-ends-css"}
+	"inline:plain", "inline:dot", "inline:dotmid", "inline:ends-txt", "inline:ends-js", "inline:ends-css-twig", "inline:brace-ends-txt", "inline:brace-ends-js", "inline:braces-ends-css", "inline:newlines-ends-js", "inline:newlines-ends-txt"}
 
 var c12Payloads = []string{
 	"<script>alert(1)</script>", "' onmouseover='alert(1)", "\"", "&amp; & &lt;", "</style><b>", "a b", "javascript:alert(1)//", "é😀<i>", "plain", "x;y(z)=1/2\\3\n4",
@@ -364,7 +364,9 @@ var c12Inline = map[string]string{"inline:plain": "", "inline:dot": "Version 1.2
 
 // c12InlineTail: text after the construct. An inline source is no file name, whatever its last characters are.
 var c12InlineTail = map[string]string{"inline:ends-txt": " see notes.txt", "inline:ends-js": " load app.js", "inline:ends-css-twig": " style.css.twig",
-	"inline:brace-ends-txt": " } see notes.txt", "inline:brace-ends-js": " load app.js", "inline:braces-ends-css": " main.css"}
+	"inline:brace-ends-txt": " } see notes.txt", "inline:brace-ends-js": " load app.js", "inline:braces-ends-css": " main.css",
+	// (every tag and print of these two has a line break inside its delimiters)
+	"inline:newlines-ends-js": "\nload app.js", "inline:newlines-ends-txt": "\nnotes.txt"}
 
 type c12case struct {
 	main      string
@@ -469,6 +471,9 @@ func (p *c12) templates(c c12case) (string, map[string]string, []c12site) {
 	if c.inline {
 		// the main template's source is its own name under the string loader
 		src := c12Inline[c.main] + tpls["INLINE"] + c12InlineTail[c.main]
+		if strings.Contains(c.main, "newlines") {
+			src = strings.NewReplacer("{{ ", "{{\n", " }}", "\n}}", "{% ", "{%\n", " %}", "\n%}").Replace(src)
+		}
 		delete(tpls, "INLINE")
 		for k := range sites {
 			if sites[k].tpl == "INLINE" {
